@@ -55,6 +55,7 @@ func rulesC07(c *Ctx) {
 	setParamsC07(c)
 	bindNonNilRule(c, "C07.bindnil")
 	valueTextC07(c)
+	strconvRule(c, "C07.strconv")
 	regexKindC07(c, tt)
 	paramNameC07(c)
 	s := p.newSCCP()
